@@ -5,10 +5,12 @@ coq/model/RunC14.v):
           dir 1: endpoint X sends program A, endpoint Y receives with program B;
           dir 2: Y sends C, X receives D (all four tasks run concurrently)
           send ops   1 write(len a, extra capacity b%1024) 2 write_vectored(total a, members b%1024)
+                     6 write_with_ancillary 7 write_vectored_with_ancillary (empty control)
                      3 write_zerocopy 4 write_zerocopy_vectored (b >= 1024: buffer awaited one yield later)
                      5 sleep(a ms; 0 = yield)
           recv ops   1 read(cap a, initial len b) 2 read_vectored(total cap a, members b)
                      3 read_managed(len a) 4 read_multi(len a, take b items; 0 = until end) 5 sleep
+                     6 read_with_ancillary 7 read_managed_with_ancillary 8 read_multi_with_ancillary(64; take b)
  dgram  : 2 drv tr plen psize seed nsend window mkind mcount n (skind size sender rkind cap len flags)*
  accept : 3 drv tr k mode j
 """
@@ -44,10 +46,14 @@ def _send_prog(rng, tr, drv, budget):
             a = rng.randrange(0, 200)
         total += a
         defer = 1024 if rng.random() < 0.3 else 0
-        if r < 0.50:
+        if r < 0.44:
             ops.append((1, a, rng.choice([0, 0, 1, 5, 64])))
-        elif r < 0.70:
+        elif r < 0.50:
+            ops.append((6, a, rng.choice([0, 3, 64])))
+        elif r < 0.64:
             ops.append((2, a, rng.randrange(1, 6)))
+        elif r < 0.70:
+            ops.append((7, a, rng.randrange(1, 6)))
         elif r < 0.87:
             ops.append((3, a, rng.choice([0, 3, 17]) + defer))
         else:
@@ -65,15 +71,20 @@ def _recv_prog(rng, plen, early_drop):
         elif r < 0.48:
             cap = rng.choice([0, 1, 2, 3, 7, 16, 64, 100, 500, 1500, 5000, 20000]) if rng.random() < 0.7 \
                 else rng.randrange(1, 3000)
-            ops.append((1, cap, rng.randrange(0, cap + 1) if rng.random() < 0.6 else 0))
+            ops.append((1 if rng.random() < 0.8 else 6, cap, rng.randrange(0, cap + 1) if rng.random() < 0.6 else 0))
         elif r < 0.66:
             cap = rng.choice([1, 2, 5, 16, 64, 300, 2000, 9000]) if rng.random() < 0.8 else rng.randrange(0, 4000)
             ops.append((2, cap, rng.randrange(1, 6)))
         elif r < 0.82:
-            ops.append((3, rng.choice([0, 0, 1, 7, 100, plen, plen + 10, 3 * plen]), 0))
+            ops.append((3 if rng.random() < 0.75 else 7, rng.choice([0, 0, 1, 7, 100, plen, plen + 10, 3 * plen]), 0))
         else:
             take = rng.randrange(1, 6) if early_drop else 0
-            ops.append((4, rng.choice([0, 0, 1, 7, 100, plen + 10]), take))
+            if plen >= 256 and rng.random() < 0.3:
+                ops.append((8, 0, take))          # read_multi_with_ancillary
+            else:
+                # one-byte items until end-of-stream would make transcripts of 10^5 events
+                lens = [0, 0, 1, 7, 100, plen + 10] if take else [0, 0, 100, plen + 10]
+                ops.append((4, rng.choice(lens), take))
     return ops
 
 
@@ -140,7 +151,7 @@ def gen_dgram(rng):
             size = rng.randrange(3000, 40000)
         sender = rng.randrange(nsend)
         if tr == 0:
-            skind = rng.choice([1, 1, 2, 3, 4, 5])
+            skind = rng.choice([1, 1, 2, 3, 4, 5, 6, 7, 8, 9])
             rkind = rng.randrange(1, 10)
         else:
             skind = rng.choice([1, 2])
